@@ -67,8 +67,7 @@ func (vc *VC) call(call ssa.CallInstruction) {
 		if vc.libInvoke(call, recv) {
 			return
 		}
-		vc.havoc(vc.callModSet(call))
-		vc.havocResults(call)
+		vc.invokeImpls(call, recv)
 		return
 	}
 	switch callee := c.Value.(type) {
@@ -300,7 +299,9 @@ func (vc *VC) appendCall(call ssa.CallInstruction) {
 				for i := int64(0); i < at.Len(); i++ {
 					el := Sel(Sel(E, src), IntLit(i))
 					if nonnil {
-						vc.check("nonnil-append", call.Pos(), "", Not(vc.isNil(el, st.Elem())), sp)
+						if ob := vc.check("nonnil-append", call.Pos(), "", Not(vc.isNil(el, st.Elem())), sp); ob != nil {
+							ob.Detail = vc.e.typeName(c.Args[0].Type())
+						}
 					}
 					vc.disciplineAppend(call, el)
 					contents = Sto(contents, Add(base, IntLit(i)), el)
@@ -340,7 +341,9 @@ func (vc *VC) appendCall(call ssa.CallInstruction) {
 	// append(nil, empty...) stays nil
 	vc.setVal(v, Ite(And(Eq(sx("s_arr", s), "0"), Eq(tl, "0")), "nil_slice", sx("mk_slice", a, off, nl, cp)))
 	if nonnil && !vc.e.cs.NonNilElem[vc.e.typeName(c.Args[1].Type())] {
-		vc.check("nonnil-append", call.Pos(), "", Eq(tl, "0"), sp)
+		if ob := vc.check("nonnil-append", call.Pos(), "", Eq(tl, "0"), sp); ob != nil {
+			ob.Detail = vc.e.typeName(c.Args[0].Type())
+		}
 	}
 }
 
@@ -513,4 +516,89 @@ func libName(f *ssa.Function) string {
 		return f.Pkg.Pkg.Name() + "." + f.Name()
 	}
 	return f.String()
+}
+
+// invokeImpls models dynamic dispatch on an in-package interface through the contracts of the
+// implementers: each implementer's requires must hold when the dynamic type is its receiver type,
+// and its ensures may be assumed in that case.
+func (vc *VC) invokeImpls(call ssa.CallInstruction, recv Term) {
+	c := call.Common()
+	impls := vc.e.implementers(c.Value.Type(), c.Method)
+	type implInfo struct {
+		con   *Contract
+		g     *ssa.Function
+		guard Term
+		names []string
+		args  []Term
+		typs  []types.Type
+	}
+	var infos []implInfo
+	pre := vc.cur.clone()
+	for _, g := range impls {
+		con := vc.e.cs.Funcs[vc.e.fname(g)]
+		if con == nil || len(g.Params) == 0 {
+			continue
+		}
+		rt := g.Params[0].Type()
+		guard := Eq(sx("i_tag", recv), IntLit(int64(vc.e.tagOf(rt))))
+		rv := vc.unbox(sx("i_val", recv), rt)
+		if _, isPtr := rt.Underlying().(*types.Pointer); isPtr && vc.e.cs.NonNilBoxed[vc.e.typeName(rt)] {
+			guard = And(guard, Ne(rv, "0"))
+		}
+		inf := implInfo{con: con, g: g, guard: guard}
+		inf.names = append(inf.names, g.Params[0].Name())
+		inf.args = append(inf.args, rv)
+		inf.typs = append(inf.typs, rt)
+		for i, a := range c.Args {
+			if i+1 < len(g.Params) {
+				inf.names = append(inf.names, g.Params[i+1].Name())
+				inf.args = append(inf.args, vc.v(a))
+				inf.typs = append(inf.typs, a.Type())
+			}
+		}
+		infos = append(infos, inf)
+	}
+	for _, inf := range infos {
+		ce := &cenv{vc: vc, vars: map[string]cval{}, heap: pre, old: pre, allocOld: pre.alloc}
+		for i, n := range inf.names {
+			ce.vars[n] = cval{t: inf.args[i], typ: inf.typs[i]}
+		}
+		props := inf.con.Props
+		if len(props) == 0 {
+			props = vc.safetyProps()
+		}
+		for _, r := range inf.con.Requires {
+			ce.err = nil
+			t := ce.eval(r.Expr)
+			if ce.err != nil {
+				continue
+			}
+			pr := props
+			if len(r.Props) > 0 {
+				pr = r.Props
+			}
+			vc.check("requires", call.Pos(), inf.con.Fn+": "+r.Text, Imp(inf.guard, t.t), pr)
+		}
+	}
+	vc.havoc(vc.callModSet(call))
+	res := vc.havocResults(call)
+	sig := call.Common().Signature()
+	for _, inf := range infos {
+		ce := &cenv{vc: vc, vars: map[string]cval{}, heap: vc.cur, old: pre, allocOld: pre.alloc}
+		for i, n := range inf.names {
+			ce.vars[n] = cval{t: inf.args[i], typ: inf.typs[i]}
+		}
+		for i, r := range res {
+			ce.result = append(ce.result, cval{t: r, typ: sig.Results().At(i).Type()})
+			ce.resNm = append(ce.resNm, sig.Results().At(i).Name())
+		}
+		for _, en := range inf.con.Ensures {
+			ce.err = nil
+			t := ce.eval(en.Expr)
+			if ce.err != nil {
+				continue
+			}
+			vc.gfact(Imp(inf.guard, t.t))
+		}
+	}
 }
